@@ -34,6 +34,7 @@ RULE = (
     "sequences of two checks on one system object whose values are rescaled in place by 2^+-20 in between; "
     "check_flows over every per-flow state assignment x every exception subset x raise_error x verbose. "
     "Non-trivial = system with at least one flow. Distinct by construction."
+    " Also: flows dicts keyed by aliases, flows named like processes, a process-less stock dominating the default tolerance, check_flows at the tolerance edge."
 )
 ASSUMPTIONS = [
     "flow / stock values are small integers (exact sums) plus single perturbations; not all reals",
